@@ -358,6 +358,75 @@ fn traverse<V: VirtualFileSystem>(vfs: &V, root: &Path, o: &Opts, cap: u16, stri
     }
 }
 
+/// the same traversal with a pre_op installed: one combined log of P (pre_op called on a directory), Y (entry yielded) and
+/// E (error item) events in the order they happen.  `fail`: pre_op returns an error for directories with that name.
+fn traverse_preop<V: VirtualFileSystem>(vfs: &V, root: &Path, o: &Opts, strip: &Path, fail: &str) -> Value {
+    let log: std::sync::Arc<std::sync::Mutex<Vec<Value>>> = Default::default();
+    let log2 = log.clone();
+    let (strip2, fail2) = (strip.to_path_buf(), fail.to_string());
+    let r = guard(move || -> Value {
+        let mut e = match vfs.entries(root) {
+            Ok(e) => e,
+            Err(err) => return json!({"o": err_kind(&err)}),
+        };
+        e = e.follow(o.follow);
+        let umax = if o.max >= MAXD { usize::MAX } else { o.max as usize };
+        if o.ord == "min" {
+            e = e.min_depth(o.min as usize).max_depth(umax);
+        } else {
+            e = e.max_depth(umax).min_depth(o.min as usize);
+        }
+        e = match o.filt {
+            "dirs" => e.dirs(),
+            "files" => e.files(),
+            _ => e,
+        };
+        e = match o.sort {
+            "name" => e.sort_by_name(),
+            "dirs_first" => e.dirs_first(),
+            "files_first" => e.files_first(),
+            _ => e,
+        };
+        if o.cf {
+            e = e.contents_first();
+        }
+        let log3 = log2.clone();
+        e = e.pre_op(move |x| {
+            let name = x.path().file_name().map(|n| n.to_string_lossy().to_string()).unwrap_or_default();
+            log3.lock().unwrap().push(json!({"t": "P", "p": rel_comps(x.path(), &strip2), "d": "-", "f": "-", "l": "-", "e": ""}));
+            if !fail2.is_empty() && name == fail2 {
+                return Err(PathError::does_not_exist(x.path()).into());
+            }
+            Ok(())
+        });
+        let mut it = e.into_iter();
+        if o.filt == "links" {
+            it = it.filter_p(|x| x.is_symlink());
+        }
+        let mut n = 0;
+        loop {
+            match it.next() {
+                None => break,
+                Some(Ok(x)) => log2.lock().unwrap().push(json!({"t": "Y", "p": rel_comps(x.path(), strip), "d": tf(x.is_dir()), "f": tf(x.is_file()), "l": tf(x.is_symlink()), "e": ""})),
+                Some(Err(err)) => {
+                    let it = err_item(&err, strip);
+                    log2.lock().unwrap().push(json!({"t": "E", "p": it["p"], "d": "-", "f": "-", "l": "-", "e": it["e"]}));
+                },
+            }
+            n += 1;
+            if n > ITER_CAP {
+                return json!({"o": "hang"});
+            }
+        }
+        json!({"o": "ok"})
+    });
+    let ev = log.lock().map(|g| g.clone()).unwrap_or_default();
+    match r {
+        Ok(v) => json!({"o": v["o"], "ev": ev}),
+        Err(_) => json!({"o": "panic", "ev": ev}),
+    }
+}
+
 // ------------------------------------------------------------------ building a tree on both backends
 
 fn build_memfs(tree: &Tree) -> (Memfs, bool) {
@@ -523,6 +592,29 @@ fn do_tree(cx: &mut Ctx, tid: usize, tree: &Tree, pick: &mut dyn FnMut(usize, us
                 }
             }
             cx.out.rec(&json!({"k": "t", "set": cx.set, "tid": tid, "tree": tj, "root": rn.p, "o": opt_json(&o), "rk": rk, "runs": runs, "seqs": seqs}));
+            // every third option set also with a pre_op installed (always Ok / failing on directories named "a")
+            if o.ix % 3 == 0 {
+                for fail in ["", "a"] {
+                    if !fail.is_empty() && o.follow {
+                        continue; // a failing pre_op is only judged without follow
+                    }
+                    let mut sides = vec![];
+                    for be in ["memfs", "stdfs"] {
+                        let mut v = if be == "memfs" {
+                            traverse_preop(&mem, Path::new(&pstr(&rn.p)), &o, Path::new("/"), fail)
+                        } else {
+                            let mut r = base.clone();
+                            for c in &rn.p {
+                                r.push(c);
+                            }
+                            traverse_preop(&stdfs, &r, &o, &base, fail)
+                        };
+                        v["be"] = json!(be);
+                        sides.push(v);
+                    }
+                    cx.out.rec(&json!({"k": "tp", "set": cx.set, "tid": tid, "tree": tj, "root": rn.p, "o": opt_json(&o), "rk": rk, "fail": fail, "sides": sides}));
+                }
+            }
         }
     }
     let _ = std::fs::remove_dir_all(&base);
